@@ -3,12 +3,12 @@ CONSTANTS
   q1 = q1
   q2 = q2
   q3 = q3
-  Q <- Q3
+  Q <- Q2
   MAXRUN = 2
   CAP = 10
   ASYNC = FALSE
   MAXUPD = 0
-  CANCELS = 1
+  CANCELS = 2
   TIMERS = TRUE
-SYMMETRY Sym3
+SYMMETRY Sym2
 INVARIANTS TypeOK Admission NoDoubleBooking OneTerminal CleanAfterReturn QuiescentClean NoStuckSender NoStuckWithLock
